@@ -4,7 +4,7 @@ and tools/ops/C04.ops (the operations whose panic behaviour C04 constrains, coll
 import os, re
 ROOT = os.path.dirname(os.path.dirname(os.path.abspath(__file__)))
 out = ["@coq_import Digit Core Shift AddSub Mul Div Bits Pow Ops",
-       "@rust_use use core::ops::*;", "@rust_use use core::str::FromStr;"]
+       "@configs small", "@rust_use use core::ops::*;", "@rust_use use core::str::FromStr;"]
 
 BIN = [  # trait, operator token, assign token, inherent method, coq U expr, coq I expr
     ("Add", "+", "+=", "add", "vRL (U_add dbg w a b)", "vRL (I_add dbg w a b)"),
@@ -88,7 +88,7 @@ want = {
     "C06": r"\.(next_power_of_two|checked_next_power_of_two|wrapping_next_power_of_two|bit|set_bit|power_of_two)$",
     "C08": r".*",
 }
-c04 = ["@coq_import Digit Core Shift AddSub Mul Div Bits Pow Ops", "@rust_use use core::ops::*;"]
+c04 = ["@coq_import Digit Core Shift AddSub Mul Div Bits Pow Ops", "@configs small", "@rust_use use core::ops::*;"]
 seen = set()
 for pid, pat in want.items():
     for ln in open(os.path.join(ROOT, "tools", "ops", pid + ".ops")):
